@@ -38,6 +38,9 @@ test(tst, environment={'A': '1', 'B': '2', 'C': '3', 'D': '4'})
 alias('al', [ms[0], ms[2], tst])
 install(header_file('h1.h'), man_page('man/p.1', compress=False))
 extra_dist(files=['d1.txt', 'sub1/u.c'])
+# a header directory of the project that a relative -I of the configured
+# CPPFLAGS also names when bfg9000 is invoked from the source directory
+executable('incuser', ['sub2/v.c'], includes=['include', 'sub1'])
 '''
 
 
@@ -79,18 +82,33 @@ def digest_files(bld):
         sorted(aux, key=lambda x: x['file'])
 
 
+# a small project configured with the REAL compiler (which reports its search
+# directories, resolved against the invoking directory) and without anything
+# that would query the compiler while the script runs
+REAL_SCRIPT = '''
+executable('incuser', ['sub2/v.c'], includes=['include', 'sub1'])
+library('rl', ['sub1/u.c'], includes=[header_directory('include')])
+'''
+
+
 def run_project(arg):
-    decls, backend, ctxs = arg
+    decls, backend, ctxs = arg[:3]
+    real = len(arg) > 3 and arg[3]
     files = sg.source_files(decls)
-    files['build.bfg'] = sg.bfg_text(decls) + TRAILER + ZOO
+    files['build.bfg'] = sg.bfg_text(decls) + (
+        REAL_SCRIPT if real else TRAILER + ZOO)
     files.update(zoo_files())
     for _n in ('sub1/u.c', 'sub2/v.c', 'sub3/w.c'):
         files[_n] = 'int %s;\n' % _n[5]
     files['man/p.1'] = '.TH p 1\n'
+    files['include/i.h'] = '#define I 1\n'
     files['extra/e1.c'] = 'int e1;\n'
     files['extra/e2.c'] = 'int e2;\n'
     files['extra/e.h'] = 'int e;\n'
     p = regen.Proj(files, backend=backend)
+    if real:
+        for k in ('CC', 'CXX', 'AR'):
+            p.env.pop(k, None)
     os.makedirs(os.path.join(p.root, 'other'))
     events = []
     try:
@@ -104,6 +122,8 @@ def run_project(arg):
             bd = p.bld if c['form'] == 'abs' else os.path.relpath(p.bld, cwd)
             env = dict(p.env)
             env['PYTHONHASHSEED'] = str(c['seed'])
+            # part of the configuration (the same in every context)
+            env['CPPFLAGS'] = '-Iinclude -I../src/sub1 -DCONF=1'
             if c['noise']:
                 env.update({'ZZ_NOISE': 'x' * (c['seed'] % 7 + 1),
                             'LANGUAGE': 'en', 'COLUMNS': '123'})
@@ -132,6 +152,9 @@ def main(argv):
     for i, s in enumerate(scripts):
         cs = ctxs if not ck.quick else rnd.sample(ctxs, 12)
         jobs.append((s, 'make' if i % 3 else 'ninja', cs))
+    for b in ('make', 'ninja'):
+        jobs.append(([], b, ctxs if not ck.quick else rnd.sample(ctxs, 12),
+                     True))
     res = pmap(run_project, jobs)
     traces = [{'id': i + 1, 'events': [
         {k: v for k, v in e.items() if k != 'out'} for e in ev]}
@@ -142,7 +165,7 @@ def main(argv):
     ck.states += st['distinct']
     ck.transitions += st['generated']
     for tid, info in sorted(rej.items()):
-        decls, backend, cs = jobs[tid - 1]
+        decls, backend, cs = jobs[tid - 1][:3]
         ev = res[tid - 1][info[1] - 1]
         files = info[2][1] if isinstance(info[2], list) and len(info[2]) > 1 \
             else []
